@@ -243,6 +243,7 @@ func (c *Ctx) buildAliases() error {
 	}
 	c.funcByCanon = map[string]*types.Func{}
 	c.typeByCanon = map[string]*types.TypeName{}
+	c.freshFuncs = map[*types.Func]bool{}
 	c.Aliases = nil
 	set := func(o types.Object, name string) {
 		if o.Name() == name {
@@ -374,7 +375,11 @@ func (c *Ctx) buildAliases() error {
 			}
 		}
 		for _, f := range pkgFuncs(p) {
-			c.funcByCanon[rel+"|"+funcKey2(f)] = f
+			k := funcKey2(f)
+			c.funcByCanon[rel+"|"+k] = f
+			if _, known := pin.Funcs[k]; !known {
+				c.freshFuncs[f] = true
+			}
 		}
 	}
 	sort.Strings(c.Aliases)
@@ -387,4 +392,137 @@ func funcKey2(f *types.Func) string {
 		return CanonName(tn) + "." + CanonName(f)
 	}
 	return CanonName(f)
+}
+
+// IsFresh reports whether fn is a named function of the library that the pinned tree does not have (under any name):
+// code that has been moved out of a pinned function (an extracted helper) or added.
+func (c *Ctx) IsFresh(fn *ssa.Function) bool {
+	if fn == nil {
+		return false
+	}
+	o, ok := fn.Object().(*types.Func)
+	return ok && c.freshFuncs[o]
+}
+
+// Region returns fn, its function literals, and the fresh functions (IsFresh) it reaches through static calls, go and
+// defer statements, method values and closures — transitively through fresh functions only. A rule that looks for a
+// construct "in" a pinned function looks in its region, so that extracting part of the function into a helper does
+// not hide the construct. The pinned function and its literals come first.
+func (c *Ctx) Region(fn *ssa.Function) []*ssa.Function {
+	if fn == nil {
+		return nil
+	}
+	seen := map[*ssa.Function]bool{}
+	var out []*ssa.Function
+	var visit func(f *ssa.Function, depth int)
+	visit = func(f *ssa.Function, depth int) {
+		if f == nil || seen[f] || depth > 5 || f.Blocks == nil {
+			return
+		}
+		seen[f] = true
+		out = append(out, f)
+		for _, a := range f.AnonFuncs {
+			visit(a, depth)
+		}
+		Instrs(f, func(in ssa.Instruction) {
+			var targets []*ssa.Function
+			if ci, ok := in.(ssa.CallInstruction); ok {
+				targets = append(targets, ci.Common().StaticCallee())
+				for _, a := range ci.Common().Args {
+					if mc, ok := a.(*ssa.MakeClosure); ok {
+						if t, ok := mc.Fn.(*ssa.Function); ok {
+							targets = append(targets, t)
+						}
+					}
+				}
+			}
+			if mc, ok := in.(*ssa.MakeClosure); ok {
+				if t, ok := mc.Fn.(*ssa.Function); ok {
+					targets = append(targets, t) // bound method values `x.m` and literals
+				}
+			}
+			for _, t := range targets {
+				if t == nil {
+					continue
+				}
+				// bound-method wrappers: look through to the method
+				if t.Synthetic != "" && t.Object() != nil {
+					if m := c.Prog.FuncValue(t.Object().(*types.Func)); m != nil {
+						t = m
+					}
+				}
+				if c.IsFresh(t) {
+					visit(t, depth+1)
+				}
+			}
+		})
+	}
+	visit(fn, 0)
+	return out
+}
+
+// RegionInstrs calls f for every instruction of the region of fn.
+func (c *Ctx) RegionInstrs(fn *ssa.Function, f func(ssa.Instruction)) {
+	for _, g := range c.Region(fn) {
+		Instrs(g, f)
+	}
+}
+
+// Anchor maps an instruction of the region of fn to the instruction of fn itself through which it runs: the
+// instruction itself when it is in fn, otherwise the (first) static call / go / defer in fn that enters the fresh
+// function containing it (followed through nested fresh functions). nil when no such site exists.
+func (c *Ctx) Anchor(fn *ssa.Function, in ssa.Instruction) ssa.Instruction {
+	for depth := 0; depth < 6 && in != nil; depth++ {
+		g := in.Parent()
+		if g == fn {
+			return in
+		}
+		// literals of a function run where they are created (approximation used by the rules: creation site)
+		if g.Parent() != nil {
+			var mk ssa.Instruction
+			Instrs(g.Parent(), func(x ssa.Instruction) {
+				if mc, ok := x.(*ssa.MakeClosure); ok && mc.Fn == g && mk == nil {
+					mk = x
+				}
+			})
+			in = mk
+			continue
+		}
+		var site ssa.Instruction
+		for _, cand := range c.Region(fn) {
+			if site != nil {
+				break
+			}
+			Instrs(cand, func(x ssa.Instruction) {
+				if ci, ok := x.(ssa.CallInstruction); ok && site == nil && ci.Common().StaticCallee() == g {
+					site = x
+				}
+			})
+		}
+		in = site
+	}
+	return nil
+}
+
+// RegionDecls returns the declarations of the named functions of fn's region (fn first).
+func (c *Ctx) RegionDecls(fn *ssa.Function) []ast.Node {
+	var out []ast.Node
+	for _, g := range c.Region(fn) {
+		if g.Parent() != nil {
+			continue // literals are part of their parent's declaration
+		}
+		if d := c.Decl(g); d != nil {
+			out = append(out, d)
+		}
+	}
+	return out
+}
+
+// RegionCallsTo lists the calls of target anywhere in the region of fn.
+func (c *Ctx) RegionCallsTo(fn, target *ssa.Function) []ssa.CallInstruction {
+	var out []ssa.CallInstruction
+	for _, g := range c.Region(fn) {
+		out = append(out, CallsTo(g, target, false)...)
+	}
+	return out
 }
